@@ -206,7 +206,7 @@ fn one_late_cancel(mut ops: Vec<Op>) -> Vec<Op> {
 
 pub fn run(ctx: &Ctx, rep: &Report) {
     run_exhaustive(ctx, rep, ctx.tier.pick(5, 7));
-    run_prop(ctx, rep, "random", ctx.tier.pick(20_000, 500_000), &|| hist_random(), &check_hist);
+    run_prop(ctx, rep, "random", ctx.tier.pick(20_000, 3_000_000), &|| hist_random(), &check_hist);
 }
 
 pub fn replay(sub: &str, case: &Value) -> Result<(), Fail> {
